@@ -321,3 +321,34 @@ func vfH_C07_session_recovery() {
 	vfAssert("c07/rec/decoder-not-suspended", !pr.srv.fecDecoder.shouldTune)
 	vfAssert("c19/rec/stream-never-reaches-the-oob-handler", oobCalls <= 3 && (withOOB || oobCalls == 0))
 }
+
+// C10 "whenever in the connection's life it is set": an MTU shrink that SetMtu accepts while the
+// FEC encoder is in the middle of a group (one data packet of the old size collected, nothing
+// queued or in flight any more). Every datagram handed to the socket after SetMtu returned must
+// respect the new MTU — the group's parity included.
+func vfH_C10_session_setmtu_fec() {
+	ck := []int{vfCipherNil, vfCipherNone, vfCipherAEAD}[vfPick("cipher", 0, 2)]
+	lk := vfNewLink(ck, 2, 1, false)
+	pr := lk.pr
+	big, small := 150, 100
+	vfAssert("mtufec/initial-mtu-accepted", pr.client.SetMtu(big))
+	lk.write("w0", int(pr.client.kcp.mss)) // a full-size segment: the datagram is exactly `big` bytes
+	for r := 0; r < 4 && pr.client.kcp.WaitSnd() > 0; r++ {
+		lk.round(100)
+	}
+	vfAssert("mtufec/first-write-acknowledged", pr.client.kcp.WaitSnd() == 0)
+	vfReach("quiet")
+	n0 := len(pr.cconn.writes)
+	ok := pr.client.SetMtu(small)
+	if !ok {
+		// refusing is always allowed by the property
+		vfStop()
+	}
+	vfReach("accepted")
+	lk.write("w1", 2)
+	vfDrainTx(pr.client)
+	vfAssert("mtufec/second-write-on-the-wire", len(pr.cconn.writes) > n0)
+	for _, w := range pr.cconn.writes[n0:] {
+		vfAssert("c10/mtufec/datagram-after-accepted-shrink-within-new-mtu", len(w.data) <= small)
+	}
+}
